@@ -379,10 +379,9 @@ class TransportLayerLogic:
 
         @staticmethod
         def _fits_float(value: int) -> bool:
-            try:
-                float(value)
-                return True
-            except OverflowError:   # the timers work with float seconds
+            try:    # the timers work with nanoseconds computed from float seconds
+                return math.isfinite(float(value) / 1000 * 1e9)
+            except OverflowError:
                 return False
 
         def validate(self) -> None:
